@@ -91,7 +91,7 @@ def cmp_fields(exp, got, what):
 
 def field_case(srv, part, rng):
     """(1) README mapping"""
-    data, model = calgen.gen_calendar(rng, opts={"cheap_rules": True})
+    data, model = calgen.gen_calendar(rng, opts={"cheap_rules": True, "long_uids": True})
     part.evaluations += 1
     lines = srv.case("fields=1 budget=10000", data)
     tasks = parse_dump(lines)
@@ -108,7 +108,7 @@ def field_case(srv, part, rng):
             # one harness process sees, two may share it, and the name of the first is printed for both
             part.count("uid_hash_twins_in_one_process")
         elif t["uid"] != ev["uid"]:
-            part.violation("fields/uid", {"input": data.decode("latin1"), "summary": "UID %r read as %r" % (ev["uid"], t["uid"])})
+            part.violation("fields/uid-over-255-octets" if len(ev["uid"]) > 255 else "fields/uid", {"input": data.decode("latin1"), "summary": "UID %r read as %r" % (ev["uid"], t["uid"])})
         for k, e, g in cmp_fields(exp, got, "fields"):
             glob = "global-default" if (k in model["global"] and k not in ev) else "event"
             part.violation("fields/%s/%s" % (k, glob),
